@@ -318,3 +318,11 @@ func Main(id string, check func(*Ctx, *Report) error, gens ...GenFn) {
 		os.Exit(2)
 	}
 }
+
+// Tail returns the last n bytes of s.
+func Tail(s string, n int) string {
+	if len(s) > n {
+		return s[len(s)-n:]
+	}
+	return s
+}
